@@ -42,6 +42,9 @@ for op, sym in (("_add", "+"), ("_sub", "-")):
 @contract(f"{MAG}._mul", ["C08", "C06"])
 def _(c):
     cases(c)
+    # the same object as both factors (x*x): the rule does not depend on the operands being different objects
+    for e in (True, False):
+        c.scenario("same-object-err" if e else "same-object-exact", (lambda e: lambda b: (lambda m: dict(args=[b.obj(MAG, value=0.0), m, m]))(mag(b, "a", e)))(e))
     c.requires("err_ok(left) and err_ok(right)")
     c.ensures("result.value == left.value * right.value", "value")
     c.ensures("(result.error is None) == (left.error is None and right.error is None)", "exact-iff-both-exact")
